@@ -2411,4 +2411,191 @@ Section WithOrd.
     intros ops N Hwf HN. apply yield_progress_thm; auto. now apply maxw_le_keys.
   Qed.
 
+  (* ------------------------------------- the keys of the tasks ever created *)
+
+  Lemma sot_tasks : forall sb rs s, tasks (subscribe_only_to sb rs s) = tasks s.
+  Proof.
+    intros. unfold subscribe_only_to.
+    destruct (check_cycles _ _ _ _) as [[ | ] | ]; try reflexivity;
+      unfold set_err; destruct (err s); reflexivity.
+  Qed.
+
+  Lemma sot_queues : forall sb rs s, queues (subscribe_only_to sb rs s) = queues s.
+  Proof.
+    intros. unfold subscribe_only_to.
+    destruct (check_cycles _ _ _ _) as [[ | ] | ]; try reflexivity;
+      unfold set_err; destruct (err s); reflexivity.
+  Qed.
+
+  Lemma sot_nt : forall sb rs s, nt (subscribe_only_to sb rs s) = nt s.
+  Proof.
+    intros. unfold subscribe_only_to.
+    destruct (check_cycles _ _ _ _) as [[ | ] | ]; try reflexivity;
+      unfold set_err; destruct (err s); reflexivity.
+  Qed.
+
+  Lemma kill_q_key : forall q s tid, t_key (tasks (kill_q q s) tid) = t_key (tasks s tid).
+  Proof.
+    intros. unfold kill_q. destruct (q_shut (heap s q)); auto.
+    ssimpl. apply (f_key (put_event_Mild q EKill s)).
+  Qed.
+
+  Lemma cancel_key : forall tid s tid', t_key (tasks (cancel tid s) tid') = t_key (tasks s tid').
+  Proof.
+    intros. unfold cancel.
+    destruct (t_status (tasks s tid)); ssimpl; auto;
+      try (destruct (t_queue (tasks s tid)); ssimpl);
+      (destruct (Nat.eq_dec tid' tid) as [-> | Hne];
+       [rewrite fupd_eq | rewrite fupd_neq by auto]; auto).
+  Qed.
+
+  Lemma register_key : forall k s tid,
+    t_key (tasks (snd (register k s)) tid) = t_key (tasks s tid).
+  Proof.
+    intros. unfold Loop.register. destruct (queues s k); simpl; auto.
+    rewrite (f_key (notify_Mild _ _ _)). reflexivity.
+  Qed.
+
+  Lemma deregister_key : forall k t s tid,
+    t_key (tasks (deregister k t s) tid) = t_key (tasks s tid).
+  Proof.
+    intros. unfold Loop.deregister. rewrite (f_key (notify_Mild _ _ _)).
+    destruct (queues (subscribe_only_to k [] s) k); ssimpl.
+    - rewrite kill_q_key. now rewrite sot_tasks.
+    - now rewrite sot_tasks.
+  Qed.
+
+  Lemma hn_key : forall k deps st fin wp s tid,
+    t_key (tasks (handle_notifications k deps st fin wp s) tid) = t_key (tasks s tid) \/
+    t_key (tasks (handle_notifications k deps st fin wp s) tid) = k.
+  Proof.
+    intros. unfold Loop.handle_notifications.
+    set (s2 := subscribe_only_to k deps (set_ptimes (fupd (ptimes s) k (Some st)) s)).
+    assert (E : t_key (tasks (bump k (notify k fin s2)) tid) = t_key (tasks s tid)).
+    { ssimpl. rewrite (f_key (notify_Mild _ _ _)). unfold s2. now rewrite sot_tasks. }
+    destruct deps; auto. destruct wp; auto.
+    destruct (rtasks (bump k (notify k fin s2)) k); auto.
+    unfold create_task. ssimpl.
+    destruct (Nat.eq_dec tid (nt (notify k fin s2))) as [-> | Hne].
+    - right. rewrite fupd_eq. reflexivity.
+    - left. rewrite fupd_neq by auto. exact E.
+  Qed.
+
+  Lemma offer_key : forall k v deps s tid,
+    t_key (tasks (offer k v deps s) tid) = t_key (tasks s tid) \/
+    t_key (tasks (offer k v deps s) tid) = k.
+  Proof.
+    intros. unfold Loop.offer.
+    destruct (match cache s k with Some e => c_version e =? v | None => false end); auto.
+    match goal with |- context [handle_notifications k deps ?st ?fin true ?s4] =>
+      destruct (hn_key k deps st fin true s4 tid) as [H | H]; auto; left; rewrite H end.
+    ssimpl. rewrite register_key. reflexivity.
+  Qed.
+
+  Lemma delete_key : forall k s tid, t_key (tasks (delete k s) tid) = t_key (tasks s tid).
+  Proof.
+    intros. unfold Loop.delete. destruct (cache s k); auto.
+    assert (E : forall s0, t_key (tasks (bump k (deregister k (clock (tick s))
+                  (kill_resource k s0))) tid) = t_key (tasks s0 tid)).
+    { intros s0. ssimpl. rewrite deregister_key. unfold kill_resource.
+      destruct (queues s0 k); auto. apply kill_q_key. }
+    match goal with |- context [rtasks ?s4 k] => destruct (rtasks s4 k) end.
+    - rewrite cancel_key. ssimpl. rewrite deregister_key. unfold kill_resource. ssimpl.
+      destruct (queues s k); auto. rewrite kill_q_key. reflexivity.
+    - ssimpl. rewrite deregister_key. unfold kill_resource. ssimpl.
+      destruct (queues s k); auto. rewrite kill_q_key. reflexivity.
+  Qed.
+
+  Lemma run_handle_key : forall s h r,
+    Inv None s -> ready s = h :: r ->
+    forall tid', t_key (tasks (run_handle h (set_ready r s)) tid') = t_key (tasks s tid').
+  Proof.
+    intros s h r HI Hr tid'. pose proof HI as [HM HK].
+    assert (Hin : In h (ready s)) by (rewrite Hr; now left).
+    destruct h as [tid | tid | tid].
+    - pose proof (proj1 (m_start HM tid) Hin) as Hst.
+      unfold run_handle. ssimpl. rewrite Hst.
+      destruct (t_cancel (tasks s tid)) eqn:Hcan.
+      + unfold finish. ssimpl. fupd_case tid' tid; auto.
+      + assert (Hc : cur s tid).
+        { destruct (cur_dec s tid) as [H | H]; auto.
+          destruct (m_noncur HM H) as [H1 | [H1 _]]; congruence. }
+        destruct (cur_queue HI Hc) as (q & Hq & _ & _).
+        unfold Loop.register. ssimpl. rewrite Hq.
+        set (s0 := upd_task tid (with_queue q) (upd_task tid (with_status TRunning) (set_ready r s))).
+        assert (G : Grows (t_key (tasks s tid)) s0 (monitor tid q s0)).
+        { unfold Loop.monitor. eapply monitor_loop_Grows; [ | apply Nat.lt_succ_diag_r].
+          eapply enter_Running with (s := s) (h := HStart tid); eauto.
+          unfold s0. constructor; ssimpl; auto.
+          - rewrite !fupd_eq. unfold with_queue, with_status. simpl. rewrite Hcan. reflexivity.
+          - intros t' Hne. now rewrite !fupd_neq. }
+        destruct G as [A _]. destruct (A tid') as [-> _].
+        unfold s0. ssimpl. fupd_case tid' tid; ssimpl; auto; try (rewrite fupd_eq; auto).
+    - pose proof (proj1 (m_wake HM tid) Hin) as Hst.
+      unfold run_handle. ssimpl. rewrite Hst.
+      destruct (t_cancel (tasks s tid)) eqn:Hcan.
+      + unfold finish. ssimpl. fupd_case tid' tid; auto.
+      + assert (Hc : cur s tid).
+        { destruct (cur_dec s tid) as [H | H]; auto.
+          destruct (m_noncur HM H) as [H1 | [H1 _]]; congruence. }
+        destruct (cur_queue HI Hc) as (q & Hq & _ & Htq).
+        rewrite Htq by (rewrite Hst; discriminate).
+        set (s0 := upd_task tid (with_status TRunning) (set_ready r s)).
+        assert (G : Grows (t_key (tasks s tid)) s0 (monitor tid q s0)).
+        { unfold Loop.monitor. eapply monitor_loop_Grows; [ | apply Nat.lt_succ_diag_r].
+          eapply enter_Running with (s := s) (h := HWake tid); eauto.
+          unfold s0. constructor; ssimpl; auto.
+          - rewrite fupd_eq. unfold with_status. simpl. rewrite Hcan, Htq by (rewrite Hst; discriminate). reflexivity.
+          - intros t' Hne. now rewrite fupd_neq. }
+        destruct G as [A _]. destruct (A tid') as [-> _].
+        unfold s0. ssimpl. fupd_case tid' tid; ssimpl; auto.
+    - assert (E : run_handle (HDoneCb tid) (set_ready r s) = set_ready r s).
+      { assert (Hd : status s tid = TDone) by (apply (m_donecb HM); auto).
+        unfold run_handle. ssimpl. destruct (rtasks s (t_key (tasks s tid))) as [t' | ] eqn:Hrt; auto.
+        destruct (Nat.eqb_spec t' tid); auto. subst.
+        destruct (HK (t_key (tasks s tid))) as (_ & _ & C). destruct (C _ Hrt) as (_ & H2 & _). tauto. }
+      rewrite E. reflexivity.
+  Qed.
+
+  Lemma run_handles_key : forall n s, Inv None s ->
+    forall tid, t_key (tasks (run_handles n s) tid) = t_key (tasks s tid).
+  Proof.
+    induction n as [ | n IH]; intros s HI tid; simpl; auto.
+    destruct (ready s) as [ | h r] eqn:Hr; auto.
+    rewrite IH by (apply run_handle_Inv; auto). now apply run_handle_key.
+  Qed.
+
+  (* every key mentioned by the history is below N *)
+  Definition op_below (N : nat) (o : op) : Prop :=
+    match o with
+    | Offer k _ _ => k < N
+    | Delete k => True
+    | Yield => True
+    end.
+
+  Lemma run_keys_below : forall N ops, 0 < N -> Forall wf_op ops -> Forall (op_below N) ops ->
+    forall tid, t_key (tasks (run ops) tid) < N.
+  Proof.
+    intros N ops HN Hwf Hb. unfold Loop.run.
+    assert (H0 : forall tid, t_key (tasks init tid) < N) by (intros; simpl; auto).
+    pose proof init_Inv as HI. revert H0 HI. generalize init as s.
+    induction ops as [ | o ops IH]; intros s H0 HI tid; simpl; auto.
+    inversion Hwf; subst. inversion Hb; subst.
+    apply IH; auto; [ | apply step_Inv; auto].
+    intros tid'. unfold Loop.step. rewrite (m_err (proj1 HI)).
+    destruct o as [k v deps | k | ].
+    - destruct (offer_key k v deps s tid') as [-> | ->]; auto.
+    - rewrite delete_key. auto.
+    - unfold Loop.yield. rewrite run_handles_key; auto.
+  Qed.
+
+  Theorem yield_progress_N_thm : forall ops N, 0 < N -> Forall wf_op ops ->
+    Forall (op_below N) ops ->
+    ready (run (ops ++ repeat Yield (N + 2))) = [] /\
+    coherent (run (ops ++ repeat Yield (N + 2))).
+  Proof.
+    intros ops N HN Hwf Hb. apply yield_progress_keys_thm; auto.
+    apply run_keys_below; auto.
+  Qed.
+
 End WithOrd.
